@@ -10,7 +10,7 @@ namespace Gallia.SessionScan
 /-- a stack as the scanner builds it: starts in the default session, every step answered positively, every
     session after the first one a non-skipped member of `sessions` -/
 def PathOK (c : Cfg) (E : Ecu) (σ : List Sess) : Prop :=
-  σ.head? = some 1 ∧ ValidPath E.g σ ∧ ∀ x ∈ σ.tail, x ∉ c.skip ∧ x ∈ sessions
+  σ.head? = some 1 ∧ ValidPath (edge c E) σ ∧ ∀ x ∈ σ.tail, x ∉ c.skip ∧ x ∈ sessions
 
 theorem PathOK.ne_nil {c : Cfg} {E : Ecu} {σ : List Sess} (h : PathOK c E σ) : σ ≠ [] := by
   intro h0; subst h0; cases h.1
@@ -92,16 +92,16 @@ theorem Steps.snoc {c : Cfg} {E : Ecu} {m : Nat} {p q u : Sess} (h : Steps c E m
   | zero p => exact .step hq hu (.zero u)
   | step h1 h2 _ ih => exact .step h1 h2 (ih hq)
 
-theorem steps_of_reachIn {c : Cfg} {E : Ecu} {k : Nat} {u : Sess} (h : ReachIn E.g c.skip k u) :
+theorem steps_of_reachIn {c : Cfg} {E : Ecu} {k : Nat} {u : Sess} (h : ReachIn (edge c E) c.skip k u) :
     Steps c E k 1 u := by
   induction h with
   | zero => exact .zero 1
   | step _ hg hs hm ih => exact ih.snoc ⟨hs, hg⟩ hm
 
 theorem reachIn_extend {c : Cfg} {E : Ecu} (rest : List Sess) (p : Sess) (k : Nat)
-    (hr : ReachIn E.g c.skip k p) (hv : ValidPath E.g (p :: rest))
+    (hr : ReachIn (edge c E) c.skip k p) (hv : ValidPath (edge c E) (p :: rest))
     (hok : ∀ x ∈ rest, x ∉ c.skip ∧ x ∈ sessions) :
-    ReachIn E.g c.skip (k + rest.length) (top (p :: rest)) := by
+    ReachIn (edge c E) c.skip (k + rest.length) (top (p :: rest)) := by
   induction rest generalizing p k with
   | nil => simpa [top_singleton] using hr
   | cons q rest ih =>
@@ -111,7 +111,7 @@ theorem reachIn_extend {c : Cfg} {E : Ecu} (rest : List Sess) (p : Sess) (k : Na
     simpa [Nat.add_assoc, Nat.add_comm 1] using this
 
 theorem PathOK.reachIn {c : Cfg} {E : Ecu} {σ : List Sess} (h : PathOK c E σ) :
-    ReachIn E.g c.skip (σ.length - 1) (top σ) := by
+    ReachIn (edge c E) c.skip (σ.length - 1) (top σ) := by
   obtain ⟨h1, h2, h3⟩ := h
   cases σ with
   | nil => cases h1
@@ -416,8 +416,8 @@ theorem scanLoop_spec (c : Cfg) (E : Ecu) (n j : Nat) (st : St) (hab : st.aborte
 /-- every session answers `10 01` positively -/
 def DefaultReentry (g : Sess → Sess → Ans) : Prop := ∀ s, g s 1 = .pos
 
-theorem PathOK.from_any {c : Cfg} {E : Ecu} {σ : List Sess} (h : PathOK c E σ) (hd : DefaultReentry E.g)
-    (x : Sess) : ValidPath E.g (x :: σ) := by
+theorem PathOK.from_any {c : Cfg} {E : Ecu} {σ : List Sess} (h : PathOK c E σ) (hd : DefaultReentry (edge c E))
+    (x : Sess) : ValidPath (edge c E) (x :: σ) := by
   obtain ⟨h1, h2, _⟩ := h
   cases σ with
   | nil => cases h1
@@ -427,7 +427,7 @@ theorem PathOK.from_any {c : Cfg} {E : Ecu} {σ : List Sess} (h : PathOK c E σ)
     exact ⟨hd x, h2⟩
 
 theorem probeOne_noabort (c : Cfg) (E : Ecu) (σ : List Sess) (acc : St × Bool) (s : Sess)
-    (hval : ∀ x, ValidPath E.g (x :: σ)) (hab : acc.1.aborted = false) :
+    (hval : ∀ x, ValidPath (edge c E) (x :: σ)) (hab : acc.1.aborted = false) :
     (probeOne c E σ acc s).1.aborted = false := by
   rw [probeOne_eq, if_neg (by simp [hab])]
   by_cases hs : s ∈ c.skip
@@ -438,14 +438,14 @@ theorem probeOne_noabort (c : Cfg) (E : Ecu) (σ : List Sess) (acc : St × Bool)
     exact hab
 
 theorem probeFold_noabort (c : Cfg) (E : Ecu) (σ ls : List Sess) (acc : St × Bool)
-    (hval : ∀ x, ValidPath E.g (x :: σ)) (hab : acc.1.aborted = false) :
+    (hval : ∀ x, ValidPath (edge c E) (x :: σ)) (hab : acc.1.aborted = false) :
     (ls.foldl (probeOne c E σ) acc).1.aborted = false := by
   induction ls generalizing acc with
   | nil => exact hab
   | cons s ls ih => rw [List.foldl_cons]; exact ih _ (probeOne_noabort c E σ acc s hval hab)
 
 theorem processStack_noabort (c : Cfg) (E : Ecu) (st : St) (σ : List Sess)
-    (hval : ∀ x, ValidPath E.g (x :: σ)) (hab : st.aborted = false) :
+    (hval : ∀ x, ValidPath (edge c E) (x :: σ)) (hab : st.aborted = false) :
     (processStack c E st σ).aborted = false := by
   rw [processStack_eq, if_neg (by simp [hab])]
   split
@@ -453,7 +453,7 @@ theorem processStack_noabort (c : Cfg) (E : Ecu) (st : St) (σ : List Sess)
   · exact probeFold_noabort c E σ sessions _ hval hab
 
 theorem processFold_noabort (c : Cfg) (E : Ecu) (L : List (List Sess)) (st : St)
-    (hL : ∀ σ ∈ L, ∀ x, ValidPath E.g (x :: σ)) (hab : st.aborted = false) :
+    (hL : ∀ σ ∈ L, ∀ x, ValidPath (edge c E) (x :: σ)) (hab : st.aborted = false) :
     (L.foldl (processStack c E) st).aborted = false := by
   induction L generalizing st with
   | nil => exact hab
@@ -462,7 +462,7 @@ theorem processFold_noabort (c : Cfg) (E : Ecu) (L : List (List Sess)) (st : St)
     exact ih _ (fun τ hτ => hL τ (List.mem_cons_of_mem _ hτ))
       (processStack_noabort c E st σ (hL σ (List.mem_cons_self ..)) hab)
 
-theorem scanLoop_noabort (c : Cfg) (E : Ecu) (hd : DefaultReentry E.g) (n j : Nat) (st : St)
+theorem scanLoop_noabort (c : Cfg) (E : Ecu) (hd : DefaultReentry (edge c E)) (n j : Nat) (st : St)
     (hab : st.aborted = false) (inv : LvlInv c E j st) : (scanLoop c E n st).aborted = false := by
   induction n generalizing j st with
   | zero => exact hab
